@@ -44,7 +44,7 @@ theorem hp_intertwine_filter {α : Type} (p : α → Bool) (as bs : List α)
       have h2 := hb b (List.mem_cons_self ..)
       obtain ⟨i1, i2⟩ := ih bs (fun x hx => ha x (List.mem_cons_of_mem _ hx))
         (fun x hx => hb x (List.mem_cons_of_mem _ hx))
-      simp [List.filter_cons, h1, h2, i1, i2]
+      simp [h1, h2, i1, i2]
 
 theorem hp_intertwine_even {α : Type} (as bs : List α) (k : Nat)
     (hk : k < min as.length bs.length) : (intertwine as bs)[2 * k]? = as[k]? := by
@@ -110,15 +110,15 @@ theorem hp_order_perm (addrs : List Addr) : (hp_order addrs).Perm addrs := by
     cases hf : a.fam with
     | v6 =>
       have e1 : (a :: l).filter (·.fam == .v6) = a :: l.filter (·.fam == .v6) := by
-        simp [List.filter_cons, hf]
+        simp [hf]
       have e2 : (a :: l).filter (·.fam == .v4) = l.filter (·.fam == .v4) := by
-        simp [List.filter_cons, hf]
+        simp [hf]
       rw [e1, e2]; exact .cons a ih
     | v4 =>
       have e1 : (a :: l).filter (·.fam == .v6) = l.filter (·.fam == .v6) := by
-        simp [List.filter_cons, hf]
+        simp [hf]
       have e2 : (a :: l).filter (·.fam == .v4) = a :: l.filter (·.fam == .v4) := by
-        simp [List.filter_cons, hf]
+        simp [hf]
       rw [e1, e2]; exact List.perm_middle.trans (.cons a ih)
 
 theorem hp_order_mem {addrs : List Addr} {a : Addr} : a ∈ hp_order addrs ↔ a ∈ addrs :=
@@ -126,12 +126,18 @@ theorem hp_order_mem {addrs : List Addr} {a : Addr} : a ∈ hp_order addrs ↔ a
 
 theorem hp_order_single (a : Addr) : hp_order [a] = [a] := by
   unfold hp_order
-  cases hf : a.fam <;> simp [List.filter_cons, hf, intertwine]
+  cases hf : a.fam <;> simp [hf, intertwine]
 
 theorem hp_connect_race (a b : Addr) (l : List Addr) (timeout : Nat) (deadline : Option Nat)
     (rd : Nat) :
     connect (a :: b :: l) timeout deadline rd =
       race timeout deadline rd (hp_order (a :: b :: l)) [] 0 none := rfl
+
+theorem hp_intertwine_head {α : Type} (as bs : List α) (h : as ≠ []) :
+    (intertwine as bs).head? = as.head? := by
+  cases as with
+  | nil => exact absurd rfl h
+  | cons a as => cases bs <;> rfl
 
 /-! ### `earliest`, `removeId` -/
 
@@ -260,6 +266,9 @@ theorem hp_drain_cases (fuel : Nat) (ps : List Pending) (t : Nat) (fe : Option (
   | none =>
     refine .inl ⟨hp_earliest_none.mp he, ?_⟩
     simp only [drain, he]
+    cases fe with
+    | none => rfl
+    | some x => cases x; rfl
   | some q =>
     refine .inr ⟨q, rfl, ?_⟩
     cases hr : q.res with
@@ -289,8 +298,6 @@ theorem hp_pend_ok {timeout : Nat} {deadline : Option Nat} {a : Addr} {t : Nat}
       · split at hl
         · cases hl
         · injection hl with hl; omega
-    rw [hl]
-    simp only
     unfold startAttempt at h ⊢
     split at h
     · next d hb =>
@@ -312,6 +319,37 @@ theorem hp_pend_err {timeout : Nat} {deadline : Option Nat} {a : Addr} {t : Nat}
   intro h
   obtain ⟨d, hb, hd, _⟩ := hp_pend_ok h
   have := hna d hb; omega
+
+theorem hp_connect_single (a : Addr) (timeout : Nat) (deadline : Option Nat) (rd : Nat) :
+    connect [a] timeout deadline rd =
+      (match (hp_pend timeout none a 0).res with
+       | none => .ok a.id (hp_pend timeout none a 0).done
+       | some e => .err a.id e (hp_pend timeout none a 0).done) := rfl
+
+/-- decidable form of "accepts within the connect timeout" (for examples) -/
+def hp_acceptsWithin (timeout : Nat) (a : Addr) : Bool :=
+  match a.beh with
+  | .accept d => decide (d ≤ timeout)
+  | _ => false
+
+theorem hp_acceptsWithin_iff {timeout : Nat} {a : Addr} :
+    hp_acceptsWithin timeout a = true ↔ ∃ d, a.beh = .accept d ∧ d ≤ timeout := by
+  unfold hp_acceptsWithin
+  split
+  · next d hb => rw [hb]; simp
+  · next hn =>
+    simp only [Bool.false_eq_true, false_iff]
+    rintro ⟨d, hb, _⟩
+    exact hn d hb
+
+theorem hp_none_accepts {timeout : Nat} {addrs : List Addr}
+    (h : ∀ a ∈ addrs, hp_acceptsWithin timeout a = false) :
+    ∀ a ∈ addrs, ∀ d, a.beh = .accept d → timeout < d := by
+  intro a ha d hb
+  apply Nat.lt_of_not_le
+  intro hd
+  have := hp_acceptsWithin_iff.mpr ⟨d, hb, hd⟩
+  rw [h a ha] at this; cases this
 
 /-! ### (h) a success comes from an address that accepted -/
 
@@ -355,14 +393,14 @@ theorem hp_race_ok {A : List Addr} {timeout : Nat} {deadline : Option Nat} {rd :
       · exact hps p hp
       · simp only [List.mem_singleton] at hp; subst hp
         exact hp_pend_acc t (hrest a (List.mem_cons_self ..))
-    rcases hp_after_cases timeout deadline rd rest _ t fe (by simp) with
-      ⟨q, hq, ⟨_, hr, he⟩ | ⟨_, e, hr, he⟩ | ⟨_, he⟩⟩
+    rcases hp_after_cases timeout deadline rd rest (ps ++ [hp_pend timeout deadline a t]) t fe
+      (by simp) with ⟨q, hq, ⟨_, hr, he⟩ | ⟨_, e, hr, he⟩ | ⟨_, he⟩⟩
     · rw [he] at h; injection h with h1 _
       rw [← h1]; exact hps' q (hp_earliest_spec hq).1 hr
     · rw [he] at h
-      exact ih _ _ _ (fun p hp => hps' p (hp_mem_removeId.mp hp).1) h
+      exact ih _ _ _ hrest' (fun p hp => hps' p (hp_mem_removeId.mp hp).1) h
     · rw [he] at h
-      exact ih _ _ _ hps' h
+      exact ih _ _ _ hrest' hps' h
 
 /-! ### (i) the shape of the result: never `noDns`, an error carries the id of an attempt -/
 
@@ -432,9 +470,9 @@ theorem hp_race_shape {ids : List Nat} {timeout : Nat} {deadline : Option Nat} {
     · rw [he]; trivial
     · rw [he]
       obtain ⟨h1, h2⟩ := hp_feIn_orElse (e := e) hfe (hps' q (hp_earliest_spec hq).1)
-      exact ih _ _ _ (fun p hp => hps' p (hp_mem_removeId.mp hp).1) h1 (.inr (.inr h2))
+      exact ih _ _ _ hrest' (fun p hp => hps' p (hp_mem_removeId.mp hp).1) h1 (.inr (.inr h2))
     · rw [he]
-      exact ih _ _ _ hps' hfe (.inr (.inl hne'))
+      exact ih _ _ _ hrest' hps' hfe (.inr (.inl hne'))
 
 /-! ### (h ←), (j): an accepting address wins, and when -/
 
@@ -465,6 +503,29 @@ theorem hp_drain_win {p : Pending} (fuel : Nat) (ps : List Pending) (t : Nat)
         ⟨hp_mem_removeId.mpr ⟨hm, hne⟩, hres, by omega,
           fun x hx => huniq x (hp_mem_removeId.mp hx).1, fun _ h => nomatch h⟩
 
+theorem hp_after_win_aux {timeout : Nat} {deadline : Option Nat} {rd : Nat} {p : Pending}
+    {rest : List Addr}
+    (ih : ∀ (ps : List Pending) (t : Nat) (fe : Option (Nat × ConnErr)), hp_Win p rest ps t →
+      ∃ id t', race timeout deadline rd rest ps t fe = .ok id t' ∧ t' ≤ p.done)
+    (ps : List Pending) (t : Nat) (fe : Option (Nat × ConnErr)) (hw : hp_Win p rest ps t) :
+    ∃ id t', hp_after timeout deadline rd rest ps t fe = .ok id t' ∧ t' ≤ p.done := by
+  obtain ⟨hm, hres, ht, huniq, hrest⟩ := hw
+  have hne : ps ≠ [] := fun h => by rw [h] at hm; cases hm
+  rcases hp_after_cases timeout deadline rd rest ps t fe hne with
+    ⟨q, hq, ⟨hc, hr, he⟩ | ⟨hc, e, hr, he⟩ | ⟨hc, he⟩⟩
+  · have := (hp_earliest_spec hq).2 p hm
+    exact ⟨_, _, he, by omega⟩
+  · rw [he]
+    obtain ⟨hqm, hqle⟩ := hp_earliest_spec hq
+    have hne : p.id ≠ q.id := fun h => by
+      have := huniq q hqm h.symm; rw [hr] at this; cases this
+    have := hqle p hm
+    exact ih _ _ _ ⟨hp_mem_removeId.mpr ⟨hm, hne⟩, hres, by omega,
+      fun x hx => huniq x (hp_mem_removeId.mp hx).1, hrest⟩
+  · rw [he]
+    have := (hp_earliest_spec hq).2 p hm
+    exact ih _ _ _ ⟨hm, hres, by omega, huniq, hrest⟩
+
 theorem hp_race_win {timeout : Nat} {deadline : Option Nat} {rd : Nat} {p : Pending}
     (rest : List Addr) (ps : List Pending) (t : Nat) (fe : Option (Nat × ConnErr))
     (hw : hp_Win p rest ps t) :
@@ -475,28 +536,19 @@ theorem hp_race_win {timeout : Nat} {deadline : Option Nat} {rd : Nat} {p : Pend
     rw [hp_race_cons]
     obtain ⟨hm, hres, ht, huniq, hrest⟩ := hw
     have hida : a.id ≠ p.id := hrest a (List.mem_cons_self ..)
-    have hrest' : ∀ x ∈ rest, x.id ≠ p.id := fun x hx => hrest x (List.mem_cons_of_mem _ hx)
-    have hm' : p ∈ ps ++ [hp_pend timeout deadline a t] := List.mem_append_left _ hm
-    have huniq' : ∀ q ∈ ps ++ [hp_pend timeout deadline a t], q.id = p.id → q.res = none := by
-      intro q hq hid
-      rcases List.mem_append.mp hq with hq | hq
-      · exact huniq q hq hid
-      · simp only [List.mem_singleton] at hq; subst hq
-        rw [hp_pend_id] at hid; exact absurd hid hida
-    rcases hp_after_cases timeout deadline rd rest _ t fe (by simp) with
-      ⟨q, hq, ⟨hc, hr, he⟩ | ⟨hc, e, hr, he⟩ | ⟨hc, he⟩⟩
-    · have := (hp_earliest_spec hq).2 p hm'
-      exact ⟨_, _, he, by omega⟩
-    · rw [he]
-      obtain ⟨hqm, hqle⟩ := hp_earliest_spec hq
-      have hne : p.id ≠ q.id := fun h => by
-        have := huniq' q hqm h.symm; rw [hr] at this; cases this
-      have := hqle p hm'
-      exact ih _ _ _ ⟨hp_mem_removeId.mpr ⟨hm', hne⟩, hres, by omega,
-        fun x hx => huniq' x (hp_mem_removeId.mp hx).1, hrest'⟩
-    · rw [he]
-      have := (hp_earliest_spec hq).2 p hm'
-      exact ih _ _ _ ⟨hm', hres, by omega, huniq', hrest'⟩
+    refine hp_after_win_aux ih _ t fe ⟨List.mem_append_left _ hm, hres, ht, ?_,
+      fun x hx => hrest x (List.mem_cons_of_mem _ hx)⟩
+    intro q hq hid
+    rcases List.mem_append.mp hq with hq | hq
+    · exact huniq q hq hid
+    · simp only [List.mem_singleton] at hq; subst hq
+      rw [hp_pend_id] at hid; exact absurd hid hida
+
+theorem hp_after_win {timeout : Nat} {deadline : Option Nat} {rd : Nat} {p : Pending}
+    (rest : List Addr) (ps : List Pending) (t : Nat) (fe : Option (Nat × ConnErr))
+    (hw : hp_Win p rest ps t) :
+    ∃ id t', hp_after timeout deadline rd rest ps t fe = .ok id t' ∧ t' ≤ p.done :=
+  hp_after_win_aux (fun ps t fe h => hp_race_win rest ps t fe h) ps t fe hw
 
 /-- The address at position `pre.length` of the race order accepts after `d ≤ timeout`, its id is
     not shared: the race succeeds, at the latest `pre.length` race intervals plus `d` after its
@@ -511,17 +563,59 @@ theorem hp_race_delay {timeout rd : Nat} {a : Addr} {d : Nat} (hb : a.beh = .acc
   | nil =>
     simp only [List.nil_append, List.length_nil, Nat.zero_mul, Nat.add_zero]
     rw [hp_race_cons, hp_pend_accept hb hd]
-    have hw : hp_Win { id := a.id, done := t + d, res := none } (a :: post)
+    have hw : hp_Win { id := a.id, done := t + d, res := none } post
         (ps ++ [{ id := a.id, done := t + d, res := none }]) t := by
-      refine ⟨by simp, rfl, by simp only; omega, ?_, ?_⟩
-      · intro q hq hid
-        rcases List.mem_append.mp hq with hq | hq
-        · exact absurd hid (hps q hq)
-        · simp only [List.mem_singleton] at hq; subst hq; rfl
-      · intro x hx
-        sorry
-    sorry
-  | cons x pre ih => sorry
+      refine ⟨by simp, rfl, by simp only; omega, ?_, hpost⟩
+      intro q hq hid
+      rcases List.mem_append.mp hq with hq | hq
+      · exact absurd hid (hps q hq)
+      · simp only [List.mem_singleton] at hq; subst hq; rfl
+    exact hp_after_win post _ t fe hw
+  | cons x pre ih =>
+    have hpre' : ∀ y ∈ pre, y.id ≠ a.id := fun y hy => hpre y (List.mem_cons_of_mem _ hy)
+    have hx : x.id ≠ a.id := hpre x (List.mem_cons_self ..)
+    rw [List.cons_append, hp_race_cons]
+    have hps' : ∀ q ∈ ps ++ [hp_pend timeout none x t], q.id ≠ a.id := by
+      intro q hq
+      rcases List.mem_append.mp hq with hq | hq
+      · exact hps q hq
+      · simp only [List.mem_singleton] at hq; subst hq
+        rw [hp_pend_id]; exact hx
+    have hlen : (x :: pre).length * rd = pre.length * rd + rd := by
+      simp only [List.length_cons, Nat.add_mul, Nat.one_mul]
+    rw [hlen]
+    rcases hp_after_cases timeout none rd (pre ++ a :: post) (ps ++ [hp_pend timeout none x t]) t fe
+      (by simp) with ⟨q, hq, ⟨hc, hr, he⟩ | ⟨hc, e, hr, he⟩ | ⟨hc, he⟩⟩
+    · exact ⟨_, _, he, by omega⟩
+    · rw [he]
+      obtain ⟨id, t', h1, h2⟩ := ih (removeId _ q.id) (max t q.done)
+        (fe.orElse (fun _ => some (q.id, e))) (fun y hy => hps' y (hp_mem_removeId.mp hy).1) hpre'
+      exact ⟨id, t', h1, by omega⟩
+    · rw [he]
+      obtain ⟨id, t', h1, h2⟩ := ih _ (t + rd) fe hps' hpre'
+      exact ⟨id, t', h1, by omega⟩
+
+theorem hp_split_at {α : Type} {l : List α} {k : Nat} {a : α} (h : l[k]? = some a) :
+    ∃ pre post, l = pre ++ a :: post ∧ pre.length = k := by
+  induction l generalizing k with
+  | nil => simp at h
+  | cons x l ih =>
+    cases k with
+    | zero => simp at h; subst h; exact ⟨[], l, rfl, rfl⟩
+    | succ k =>
+      simp only [List.getElem?_cons_succ] at h
+      obtain ⟨pre, post, h1, h2⟩ := ih h
+      exact ⟨x :: pre, post, by rw [h1]; rfl, by simp [h2]⟩
+
+theorem hp_nodup_split {pre post : List Addr} {a : Addr}
+    (h : ((pre ++ a :: post).map (·.id)).Nodup) :
+    (∀ x ∈ pre, x.id ≠ a.id) ∧ (∀ x ∈ post, x.id ≠ a.id) := by
+  rw [List.map_append, List.map_cons, List.nodup_append] at h
+  obtain ⟨_, h2, h3⟩ := h
+  rw [List.nodup_cons] at h2
+  refine ⟨fun x hx => h3 x.id (List.mem_map_of_mem hx) a.id (List.mem_cons_self ..), ?_⟩
+  intro x hx he
+  exact h2.1 (by rw [← he]; exact List.mem_map_of_mem hx)
 
 end Happy
 end Atto
